@@ -1227,9 +1227,13 @@ class Index:
             # Filter out extensions with no meaningful data
             meaningful_extensions = []
             for ext in self._extensions:
-                # Skip extensions that have empty data
+                # Skip the extensions we only have empty stubs for; anything
+                # else is kept as it was read, empty payload or not (git's
+                # "sdir" marker is empty by design)
                 ext_data = ext.to_bytes()
-                if ext_data:
+                if ext_data or not isinstance(
+                    ext, TreeExtension | ResolveUndoExtension | UntrackedExtension
+                ):
                     meaningful_extensions.append(ext)
 
             if self._skip_hash:
